@@ -378,6 +378,8 @@ func c17(c *Ctx) {
 		}
 		c.R.Decided(caseID)
 	}
+	// one message object shared by concurrent calls: every codec feature, both plugins
+	c17shared(c)
 	c.R.Set("distinct_handler_entry_orderings", len(orderings))
 	c.R.Set("calls_checked", totalCalls)
 	c.R.Sample(map[string]any{"case": "conc/gomaxprocs=16/parallel=64", "calls_per_burst": callsPer, "routes": len(c17routes), "request_kinds": c17kinds, "monitors": []string{"race detector", "exactly-once by call id", "result=f(request)", "header isolation", "sequential agreement", "alone-in-fresh-process agreement", "porcupine"}})
